@@ -461,6 +461,7 @@ func assumptionsFor(prop string) []string {
 		"A6 package-level sentinel errors are never reassigned",
 		"A9 go/ssa and the engine's SSA semantics are right (guarded by replay and the selftest corpus)",
 		"A10 slice capacities are at most 2^48 (Go maxAlloc); integers use exact wrap-around semantics, never mathematical ones",
+		"A13 errors returned by functions outside the module, or through methods of interfaces declared outside the module, are not the module's own (unexported) sentinel errors",
 		"A11 interface values holding non-pointer values are compared by box identity; typed-nil pointers in interfaces are not modelled",
 	}
 }
